@@ -25,10 +25,12 @@ type Env struct {
 	pkg        string
 	visited    *MapIterV
 	qn         *int
-	assume     bool      // the expression is being assumed (callee contract), not proved
-	inOld      bool      // inside old(...)
-	outer      *HeapView // the view outside the enclosing old(...), for cur(...)
-	allocBound *Term     // "allocated(x)": x existed when the contract's function was entered
+	assume     bool            // the expression is being assumed (callee contract), not proved
+	fnKey      string          // function whose locals are in scope (loop invariants)
+	locals     map[string]bool // names in vars / cells that are locals of that function
+	inOld      bool            // inside old(...)
+	outer      *HeapView       // the view outside the enclosing old(...), for cur(...)
+	allocBound *Term           // "allocated(x)": x existed when the contract's function was entered
 }
 
 func (env *Env) child() *Env {
@@ -208,9 +210,11 @@ func (st *State) elab(env *Env, e *Expr) (SVal, types.Type) {
 		return IntLit(0), nil
 	case "ident":
 		if v, ok := env.vars[e.Name]; ok {
+			st.recordBinding(env, e.Name, v.t)
 			return v.v, v.t
 		}
 		if a, ok := env.cells[e.Name]; ok {
+			st.recordBinding(env, e.Name, a.Type)
 			return st.load(st.view(env), a), a.Type
 		}
 		if f, ok := st.e.specs.Funcs[e.Name]; ok && (f.Kind == "const" || len(f.Params) == 0) {
@@ -229,6 +233,11 @@ func (st *State) elab(env *Env, e *Expr) (SVal, types.Type) {
 					}
 				}
 			}
+		}
+		// a local that was renamed since the binding table was recorded: if exactly one local of the recorded type is
+		// not itself a recorded name, it is the renamed one
+		if v, t, ok := st.rebindLocal(env, e.Name); ok {
+			return v, t
 		}
 		if os.Getenv("GOVC_DEBUG") != "" {
 			var ns []string
@@ -750,4 +759,52 @@ func (st *State) elabClockExists(env *Env, e *Expr) *Term {
 		ds = append(ds, st.elabBool(n, e.Args[0]))
 	}
 	return Or(ds...)
+}
+
+// recordBinding notes, while a check runs with --record-bindings, the type of each local an invariant names.
+func (st *State) recordBinding(env *Env, name string, t types.Type) {
+	if st.e.recBindings == nil || env.fnKey == "" || !env.locals[name] || t == nil {
+		return
+	}
+	m := st.e.recBindings[env.fnKey]
+	if m == nil {
+		m = map[string]string{}
+		st.e.recBindings[env.fnKey] = m
+	}
+	m[name] = typeKey(t)
+}
+
+func (st *State) rebindLocal(env *Env, name string) (SVal, types.Type, bool) {
+	if env.fnKey == "" || st.e.bindings == nil {
+		return nil, nil, false
+	}
+	tab := st.e.bindings[env.fnKey]
+	want, ok := tab[name]
+	if !ok {
+		return nil, nil, false
+	}
+	var cands []string
+	for n := range env.locals {
+		if _, recorded := tab[n]; recorded {
+			continue
+		}
+		var t types.Type
+		if v, ok := env.vars[n]; ok {
+			t = v.t
+		} else if a, ok := env.cells[n]; ok {
+			t = a.Type
+		}
+		if t != nil && typeKey(t) == want {
+			cands = append(cands, n)
+		}
+	}
+	if len(cands) != 1 {
+		return nil, nil, false
+	}
+	st.e.note(st.u.name, "assumption", fmt.Sprintf("local %q named by a loop invariant of %s no longer exists; rebound to %q, the only new local of the same type (%s)", name, env.fnKey, cands[0], want))
+	if v, ok := env.vars[cands[0]]; ok {
+		return v.v, v.t, true
+	}
+	a := env.cells[cands[0]]
+	return st.load(st.view(env), a), a.Type, true
 }
